@@ -223,6 +223,16 @@ def build():
     plan.lemma(Lemma("OLD-WRITER-DRIFTS", "vacuity guard: storing the height as read (the pinned behaviour) does NOT read back when a border adds a point",
                      [("drifts", [b >= 1, flo(fb, b), flo(h, z3.ToReal(R) + b), s2 == h, R2 == s2], z3.Not(flo(h, z3.ToReal(R2) + b)))]))
 
+    # Document.save hands every table that is not a pivot table to the writers: contracts/C16_save.py
+    from contracts import C16_save
+    C16_save.add(plan, ctx, srch)
+
+    # the readers of the stored sizes (floats as reals): contracts/C16_read.py
+    from contracts import C16_read
+    C16_read.add(plan, ctx, srch)
+    plan.assumptions.append("A-REAL (row_height / col_width contracts): floats as mathematical reals - + - * / exact, round() round-half-even, math.floor the real "
+                            "floor; the rounding error of each machine operation is assumed away (pyvc/realfloat.py)")
+
     # a table the library creates has its OWN header storage: every object created for it is made the target of a reference (C07's complete
     # syntactic obligation over model.py, re-checked here: a table that still points at the storage it was cloned from shares its sizes)
     from contracts import C07
